@@ -126,6 +126,41 @@ Theorem C13_iter_each_set_child_once : forall kids,
 Proof. exact (fun kids => conj (listing_spec kids) (iter_from_nodup _ kids O)). Qed.
 Print Assumptions C13_iter_each_set_child_once.
 
+(** The same for an iteration interleaved with arbitrary sets and clears: call
+    number j (start, next, next, ...) sees the children in state [ks j].  Every
+    position yielded holds, at that time, a child with a value; every sibling
+    between the previous position and the yielded one had no value at that
+    time; positions only move forward, so nothing is yielded twice; and when
+    the iteration ends no later sibling has a value.  Hence every sibling that
+    has a value when the iterator passes it is yielded exactly once. *)
+Theorem C13_iter_interleaved : forall fuel ks j start k p,
+  nth_error (iter_run fuel ks j start) k = Some p ->
+  let s := call_start start (iter_run fuel ks j start) k in
+  (s <= p)%nat /\ set_at (ks (j + k)%nat) p = true /\
+  forall i, (s <= i < p)%nat -> set_at (ks (j + k)%nat) i = false.
+Proof. exact iter_run_spec. Qed.
+Print Assumptions C13_iter_interleaved.
+
+Theorem C13_iter_interleaved_once : forall fuel ks j start, NoDup (iter_run fuel ks j start).
+Proof. exact iter_run_nodup. Qed.
+Print Assumptions C13_iter_interleaved_once.
+
+Theorem C13_iter_interleaved_end : forall fuel ks j start,
+  (length (iter_run fuel ks j start) < fuel)%nat ->
+  let ps := iter_run fuel ks j start in
+  forall i, (call_start start ps (length ps) <= i)%nat -> set_at (ks (j + length ps)%nat) i = false.
+Proof. exact iter_run_end. Qed.
+Print Assumptions C13_iter_interleaved_end.
+
+(** the step to the next position depends only on the siblings after the current
+    one: clearing (or setting) the child the iterator stands on, or any earlier
+    one, does not end or otherwise change the iteration *)
+Theorem C13_iter_next_ignores_current : forall l l' s,
+  (forall i, (s <= i)%nat -> set_at l i = set_at l' i) -> length l = length l' ->
+  first_set l s = first_set l' s.
+Proof. exact first_set_ext. Qed.
+Print Assumptions C13_iter_next_ignores_current.
+
 (** opening another file in the same context (clear_volatile_attrs): attributes
     set by the application keep their values; an attribute that still has a
     value had it before, and it or an attribute below it was set by the
@@ -244,3 +279,18 @@ Example C13_nonvacuous_iter_reopen :
   d_get [[97]; [99]] (dict_of (fst (clear_volatile ex_tree))) = (ERR_NODATA, TNil, VNone) /\
   d_get [[100]] (dict_of (fst (clear_volatile ex_tree))) = (KDUMP_OK, TNum, VNum 5).
 Proof. vm_compute. repeat split. Qed.
+
+(* three children with values; the one the iterator stands on is cleared before every "next":
+   all three are still yielded *)
+Example C13_nonvacuous_iter_interleaved :
+  let a s := ANode [97] TNum s false (VNum 1) [] in
+  let b s := ANode [98] TNum s false (VNum 2) [] in
+  let c s := ANode [99] TNum s false (VNum 3) [] in
+  let ks j := match j with
+              | O => [a true; b true; c true]
+              | S O => [a false; b true; c true]
+              | S (S O) => [a false; b false; c true]
+              | _ => [a false; b false; c false]
+              end in
+  iter_run 4 ks 0 0 = [0%nat; 1%nat; 2%nat].
+Proof. vm_compute. reflexivity. Qed.
